@@ -120,6 +120,120 @@ def run(ch, fams, bindfail, tkind):
             tcpclient.socket = saved
 
 
+PAIRS = [("none", "td-frac"), ("float", "td-frac"), ("td-frac", "none"), ("td-frac", "float")]
+
+
+def run_two(ch, tkinds):
+    """Two connect() calls overlap on ONE TCPClient (the second starts while the first is still resolving), each with
+    its own timeout: the calls are independent - each gets its own connection, or TimeoutError at its own deadline."""
+    from tornado import tcpclient
+    with World() as w:
+        socks = {}
+        trace = []
+        cur_addr = [None]
+        gates = {}
+
+        def make_socket(af=_real_socket.AF_INET, *a, **kw):
+            s = w.socket(family=af, connected=False)
+            s.idx = int(cur_addr[0][0].split(".")[2])       # which call this socket belongs to
+            socks.setdefault(s.idx, []).append(s)
+            return s
+
+        class Resolver:
+            async def resolve(self, host, port, family=_real_socket.AF_UNSPEC):
+                i = int(host[4])
+                gates[i] = asyncio.Future()
+                await gates[i]
+                return [(AF[4], ("10.0.%d.1" % i, port))]
+
+            def close(self):
+                pass
+        saved = tcpclient.socket
+        tcpclient.socket = ShimModule(_real_socket, socket=make_socket)
+        try:
+            client = tcpclient.TCPClient(resolver=Resolver())
+            orig_create = client._create_stream
+
+            def create_stream(max_buffer_size, af, addr, **kw2):
+                cur_addr[0] = addr
+                return orig_create(max_buffer_size, af, addr, **kw2)
+            client._create_stream = create_stream
+            futs, D, want = [], [], [None, None]
+            for i, tk in enumerate(tkinds):
+                timeout, d = TIMEOUTS[tk]
+                D.append(d)
+                futs.append(asyncio.ensure_future(client.connect("host%d.example" % i, 80, timeout=timeout)))
+                w.pump()
+            for _ in range(12):
+                events = []
+                for i in (0, 1):
+                    if i in gates and not gates[i].done():
+                        events.append(("resolve", i))
+                    for s_ in socks.get(i, []):
+                        if s_.connect_called is not None and s_.connect_state is None and not s_.closed:
+                            events.append(("succeed", i))
+                if w.loop.next_timer() is not None:
+                    events.append(("timer",))
+                if not events:
+                    break
+                ev = events[ch.choose(len(events), "event")]
+                if ev[0] == "timer":
+                    t = w.loop.next_timer()
+                    ev = ("timer", round(t, 3))
+                    for i in (0, 1):
+                        if D[i] is not None and abs(t - D[i]) < 1e-6 and want[i] is None:
+                            want[i] = ("exc", "TimeoutError")
+                    w.fire_timer()
+                elif ev[0] == "resolve":
+                    gates[ev[1]].set_result(None)
+                else:
+                    if want[ev[1]] is None:
+                        want[ev[1]] = ("ok", ev[1])
+                    [s_ for s_ in socks[ev[1]] if s_.connect_state is None][0].connect_state = 0
+                trace.append(ev)
+                w.pump()
+            res = []
+            for f in futs:
+                if not f.done():
+                    res.append(("pending",))
+                elif f.cancelled():
+                    res.append(("cancelled",))
+                elif f.exception() is not None:
+                    res.append(("exc", type(f.exception()).__name__))
+                else:
+                    res.append(("ok", getattr(f.result().socket, "idx", None)))
+            leaks = [(i, k) for i, ss in socks.items() for k, s_ in enumerate(ss)
+                     if not s_.closed and not (res[i][0] == "ok")]
+            for g in gates.values():
+                g.done() or g.cancel()
+            for f in futs:
+                f.done() or f.cancel()
+            w.pump()
+            return {"trace": trace, "res": res, "want": want, "leaks": leaks,
+                    "loop_errors": [str(x.get("message"))[:100] for x in w.loop_errors()]}
+        finally:
+            tcpclient.socket = saved
+
+
+def judge_two(tkinds, o):
+    bad = []
+    for i in (0, 1):
+        w_, r = o["want"][i], o["res"][i]
+        if w_ is None:
+            if r[0] != "pending":
+                bad.append(("two-calls:settled-early:" + r[0], "call %d (timeout %s) is %r although neither its connection nor its "
+                            "own deadline happened" % (i, tkinds[i], r)))
+        elif r != w_:
+            bad.append(("two-calls:%s-instead-of-%s" % (r[0] if r[0] != "exc" else r[1], w_[0] if w_[0] != "exc" else w_[1]),
+                        "call %d (timeout %s): result %r, expected %r (the other call has timeout %s)"
+                        % (i, tkinds[i], r, w_, tkinds[1 - i])))
+    if o["leaks"]:
+        bad.append(("two-calls:socket-leak", "sockets of finished calls left open: %r" % (o["leaks"],)))
+    if o["loop_errors"]:
+        bad.append(("two-calls:callback-raised", repr(o["loop_errors"][:2])))
+    return bad
+
+
 def judge(fams, bindfail, tkind, o):
     bad = list(o["bad"])
     if bad:
@@ -189,6 +303,19 @@ def scenarios(tier):
 
 
 def run_all(tier, st, s, nsl):
+    if s == 0:
+        for tkinds in PAIRS:
+            def on_exec2(ch, o, tkinds=tkinds):
+                st.ev()
+                st.transitions += len(ch.trace)
+                key = h(("client2", tkinds, tuple(ch.choices())))
+                st.states.add(key)
+                st.nontrivial.add(key)
+                st.outcome(h(("client2", tuple(o["res"]))))
+                for sig, msg in judge_two(tkinds, o):
+                    st.violation("client:" + sig, "two overlapping TCPClient.connect calls with timeouts %r, schedule %r: %s"
+                                 % (tkinds, o["trace"], msg), {"kind": "client2", "tkinds": tkinds, "choices": ch.choices()})
+            devex.explore(lambda ch: run_two(ch, tkinds), bound=None, on_exec=on_exec2, max_execs=100000)
     for k, (fams, bf, tk) in enumerate(scenarios(tier)):
         if k % nsl != s:
             continue
@@ -211,6 +338,9 @@ def run_all(tier, st, s, nsl):
 
 
 def replay(case):
+    if case.get("kind") == "client2":
+        o = run_two(devex.Chooser(case["choices"]), tuple(case["tkinds"]))
+        return "%r\nverdict %r" % (o, judge_two(tuple(case["tkinds"]), o))
     fams, bf, tk = tuple(case["fams"]), (tuple(case["bindfail"]) if case["bindfail"] is not None else None), case["tkind"]
     o = run(devex.Chooser(case["choices"]), fams, bf, tk)
     return "TCPClient.connect families %r bindfail %r timeout %s\n%r\nverdict %r" % (fams, bf, tk, o, judge(fams, bf, tk, o))
